@@ -3,14 +3,14 @@ from props import *
 import C04_more, C04_gen, C04_create
 import symmetry_part
 
-LEAN_MODULES = ['C04', 'C05gen', 'C15'] + C04_more.LEAN_MODULES_EXTRA + C04_gen.LEAN_MODULES + C04_create.LEAN_MODULES + symmetry_part.LEAN_MODULES
+LEAN_MODULES = ['C04', 'C05gen', 'C05b', 'C15'] + C04_more.LEAN_MODULES_EXTRA + C04_gen.LEAN_MODULES + C04_create.LEAN_MODULES + symmetry_part.LEAN_MODULES
 
 MANIFEST = dict(
     text="One Lean theorem per operator machine: for all parameters, raw scripts and source modes, delivered trace = the documented list function (Spec.*) of the source's values and ending; "
          "chains = composition (seq_out). Tie: exhaustive small-scope + seeded differential runs of every machine against the real operator (values, kinds, order). "
          "Deviations of the pinned tree are proved as witness theorems and listed as known findings."
          ' RangeWithStep (integral bounds and steps): every start +- i*step of [start:end), ceil(|end-start|/step) values (C04d.rangeWithStep), tied by kind=create and by the generator regenerated from the source (C04create.rangeWithStepG_gen).'
-         " SequenceEqual (RoModel/Ops/SeqEq.lean: what the code computes for every pair; `_partial` = documented function on equal lengths; deviation witnessed and listed), FloorWithPrecision / CeilWithPrecision on exactly representable inputs (integer n of n/10^places compared, never a float), the delivered values of the multi-source runs and of the re-subscribing operators' runs are read through C04's projection (C05gen, C15 among its modules).",
+         " SequenceEqual (RoModel/Ops/SeqEq.lean: what the code computes for every pair; `_partial` = documented function on equal lengths; deviation witnessed and listed), FloorWithPrecision / CeilWithPrecision on exactly representable inputs (integer n of n/10^places compared, never a float), the delivered values of the multi-source runs and of the re-subscribing operators' runs are read through C04's projection (C05gen, C05b, C15 among its modules); every recorder claims the spare capacity of the slices it is handed and checks at the end that it was not overwritten or delivered again (a delivered value belongs to its receiver).",
     technique="Lean 4 proof (machine = list-function specification, induction on the value list) + differential correspondence",
     ref='5/C04')
 
@@ -24,6 +24,12 @@ def check(ctx):
     # regenerated from the source — RoProps/C05gen): C04 reads the delivered values and terminal of the same runs
     rows = R.run_kind(ctx, 'multi')
     R.compare(ctx, rows, proj_values, 'C04 multi-source operators (TakeUntil, SkipUntil, SampleWhen, ThrottleWhen, Merge*, Race*): delivered values and terminal',
+              nontrivial=lambda c, gd: gd.get('trace', '-') != '-', max_report=2)
+    # ... and of the higher-order / combining operators of kind=multib (Zip*, CombineLatest*, Concat*, FlatMap, BufferWhen, WindowWhen,
+    # GroupBy; machines and every-interleaving theorems: RoProps/C05b): delivered values and terminal, plus the harness oracle that the
+    # spare capacity of a delivered slice is still the receiver's at the end of the run
+    rows = R.run_kind(ctx, 'multib', shards=min(R.NCPU, 8))
+    R.compare(ctx, rows, lambda d: (flag(d), d.get('trace')), 'C04 higher-order / combining operators (multib): delivered values and terminal',
               nontrivial=lambda c, gd: gd.get('trace', '-') != '-', max_report=2)
     # SequenceEqual over two synchronous sources: the model of the code (RoModel/Ops/SeqEq.lean) with equality; the documented
     # function outside the known class (built on Zip2: blind to what lies beyond the shorter sequence)
